@@ -59,6 +59,7 @@ def run(ctx, progs):
     ctx.rule("MOD1", "REQUIRES(N>0) never reaches a public entry")
     ctx.rule("FREE1", "slices_uninit_mut results flow only into initialising callees")
     ctx.rule("CTOR1", "constructors: header = empty, storage never read")
+    ctx.rule("VIEW2", "the views cover exactly the occupied region (slices_uninit_mut: exactly the free region), in both forms")
     ctx.rule("REINT1", "slice-level reinterpretation only in reviewed functions, behind an emptiness guard")
     ctx.assumptions.append("INV1 leaves one store undecided: extend_from_slice `size + other.len()` under other.len() < N - size (needs arithmetic)")
     ctx.rule("NONE1", "accessors answer None exactly outside the sequence (edge facts)")
@@ -90,6 +91,10 @@ def run(ctx, progs):
         from .. import drainrules
 
         drainrules.drnview1(ctx, prog, cfg, "REINT1")
+        # which slots the views reinterpret as initialised: exactly the occupied region (and the free view its complement)
+        from .. import lenrule
+
+        lenrule.view2(ctx, prog, cfg)
         # the header describes occupied slots also when a destructor panics: it is shrunk before drop_range
         # runs and not touched afterwards (PS1 / PS1b of C05; here: no destroyed slot stays inside the header)
         from . import c05
